@@ -1,0 +1,62 @@
+//go:build verif
+
+// Contracts for package aggregator (bounded-queue encoder aggregators), checked by /verif/govc. Comment-only: no code.
+package aggregator
+
+//@ event encoded enc_flushed enc_closed sink_closed
+
+//@ iface SampleEncoder.Encode
+//@ ensures ev(encoded) == old(ev(encoded)) + 1
+//@ modifies ev(encoded)
+//@ iface SampleEncoder.Flush
+//@ ensures ev(enc_flushed) == old(ev(enc_flushed)) + 1
+//@ modifies ev(enc_flushed)
+
+//@ fieldfunc dataSinkAggregator.newEncoder
+//@ ensures result != nil
+
+// A report is either queued or counted as dropped: never lost, never both.
+//@ func (a *Reporter) Report
+//@ props C06
+//@ nilsafe
+//@ ensures [queued-or-counted] (sent(a.Incomming) - old(sent(a.Incomming))) + (a.samplesDropped - old(a.samplesDropped)) == 1
+//@ ensures [counts-only-go-up] sent(a.Incomming) >= old(sent(a.Incomming)) && a.samplesDropped >= old(a.samplesDropped)
+//@ at send a.Incomming assert [the-reported-sample] value == s
+//@ modifies chanSent[a.Incomming], a.samplesDropped
+
+//@ func (a *Reporter) dropSample
+//@ props C06
+//@ nilsafe
+//@ ensures [one-more-dropped] a.samplesDropped == old(a.samplesDropped) + 1
+//@ modifies a.samplesDropped
+
+// The error with which the aggregator ends carries exactly the number of dropped samples; no drops, no error.
+//@ func (a *Reporter) DroppedErr
+//@ props C06
+//@ nilsafe
+//@ modifies nothing
+//@ ensures [no-drops-no-error] iff(result == nil, a.samplesDropped == 0)
+//@ ensures [carries-the-count] imp(result != nil, typeis(result, *SomeSamplesDropped) && result.(*SomeSamplesDropped).Dropped == a.samplesDropped)
+
+//@ func (a *dataSinkAggregator) handleSample
+//@ props C06
+//@ nilsafe
+//@ requires enc != nil
+//@ ensures [one-encode-per-sample] ev(encoded) == old(ev(encoded)) + 1
+//@ ensures [encode-failure-is-reported] iff(result != nil, result_of(enc.Encode, 0) != nil) && imp(result != nil, cause(result) == cause(result_of(enc.Encode, 0)))
+//@ at call enc.Encode assert [the-received-sample] arg(s) == sample
+//@ modifies ev(encoded)
+
+// The run of an encoder aggregator: every queued sample is encoded, also after the context is done; on every exit the
+// encoder is closed (or flushed) and the sink closed, and the result joins the first failure, the close errors and the drop count.
+//@ func (a *dataSinkAggregator) Run
+//@ props C06
+//@ nilsafe
+//@ requires a.conf.Sink != nil && a.newEncoder != nil && ctx != nil && a.Log != nil
+//@ loop 0 invariant encoder != nil && sink != nil && imp(calls(a.handleSample) > 0, result_of(a.handleSample, 0) == nil) && ev(closer_close) == old(ev(closer_close)) && err == nil
+//@ loop 1 invariant encoder != nil && sink != nil && imp(calls(a.handleSample) > 0, result_of(a.handleSample, 0) == nil) && ev(closer_close) == old(ev(closer_close)) && err == nil
+//@ at call a.handleSample assert [every-received-sample-is-encoded] arg(sample) == result_of(<-a.Incomming, 0) && arg(enc) == encoder
+//@ ensures [sink-open-failure-is-returned] imp(result_of(a.conf.Sink.OpenSink, 1) != nil, err == result_of(a.conf.Sink.OpenSink, 1))
+//@ ensures [encoder-finished-and-sink-closed-on-every-exit] imp(result_of(a.conf.Sink.OpenSink, 1) == nil, (ev(closer_close) - old(ev(closer_close))) + (ev(enc_flushed) - old(ev(enc_flushed))) >= 2 && ev(closer_close) >= old(ev(closer_close)) + 1)
+//@ ensures [drops-fail-the-run] imp(result_of(a.conf.Sink.OpenSink, 1) == nil && a.samplesDropped != 0, err != nil)
+//@ ensures [encode-failure-fails-the-run] imp(calls(a.handleSample) > 0 && result_of(a.handleSample, 0) != nil, err != nil)
